@@ -16,10 +16,37 @@ import (
 	"path/filepath"
 	"sort"
 	"strings"
+	"sync"
 	"time"
 
 	"verif/lib/vlib"
 )
+
+// Infrastructure problems (a process that cannot be started, a worker that dies, a time-out on an
+// overloaded machine) are never violations: they are listed in the evidence and clear `exhaustive`.
+// A tool of /repo that does not build ends the run with BUILD-FAILED and exit status 2, like run.sh.
+var (
+	infraMu   sync.Mutex
+	infraErrs []string
+)
+
+func infra(what string) {
+	infraMu.Lock()
+	defer infraMu.Unlock()
+	fmt.Fprintln(os.Stderr, "INFRA-ERROR check=C15:", what)
+	if len(infraErrs) < 20 {
+		infraErrs = append(infraErrs, what)
+	}
+}
+
+func buildFailed(cleanup func(), err error) {
+	fmt.Fprintln(os.Stderr, err)
+	fmt.Fprintln(os.Stderr, "BUILD-FAILED check=C15 (a command of /repo could not be built from the current tree)")
+	cleanup()
+	os.Exit(2)
+}
+
+var cleanupScratch = func() {}
 
 func main() {
 	if len(os.Args) > 1 && os.Args[1] == "-c15worker" {
@@ -35,6 +62,7 @@ func main() {
 	scratch, cleanup := vlib.Scratch("c15")
 	defer cleanup()
 	exitClean := func() { cleanup() }
+	cleanupScratch = cleanup
 
 	// the CLI is built while parts 1 and 2 run
 	binCh := make(chan string, 1)
@@ -44,6 +72,14 @@ func main() {
 		binErr = err
 		binCh <- b
 	}()
+
+	// rule files through the real `simbox` command, concurrently with everything else
+	fdepth, fbudget := 2, 70*time.Second
+	if run.Thorough() {
+		fdepth, fbudget = 3, 10*time.Minute
+	}
+	fileCh := make(chan fileRes, 1)
+	go func() { fileCh <- runSimboxFiles(run, scratch, fdepth, start.Add(fbudget)) }()
 
 	// ---- (1) print / parse ----------------------------------------------------------------------
 	phase := map[string]float64{}
@@ -66,7 +102,7 @@ func main() {
 
 	// ---- (3) semantics ----------------------------------------------------------------------------
 	maxLen := 2
-	budget := 80 * time.Second
+	budget := 70 * time.Second
 	if run.Thorough() {
 		maxLen = 3
 		budget = 15 * time.Minute
@@ -82,14 +118,17 @@ func main() {
 	fm := runFormats(run, scratch, bin)
 	lb := runLibrary(run)
 	phase["formats_library_s"] = time.Since(t0).Seconds()
+	fres := <-fileCh
 	run.Set("phase_seconds", phase)
+	run.Set("rule_file_process_runs", fres.runs)
+	run.Set("rule_file_histories", fres.histories)
 
 	run.Set("states", states)
 	run.Set("transitions", transitions)
 	run.Set("traces_validated_against_impl", traces)
 	run.Set("history_depth", maxDepth)
 	run.Set("history_ops_by_kind", hkinds)
-	run.Set("evaluations", pp.evaluations+sem.cases+fm.cases+lb.cases)
+	run.Set("evaluations", pp.evaluations+sem.cases+fm.cases+lb.cases+fres.histories)
 	classes := len(pp.classes) + sem.distinctOutcomes + lb.distinct
 	run.Set("distinct_nontrivial", classes)
 	run.Set("rule", "print/parse: distinct (outcome, rule form) classes over all grammar strings and Rule structs; semantics: distinct observed outcomes (stdout tokens + report file) of the real simulator over all rule lists; library path: distinct returned value vectors")
@@ -105,7 +144,10 @@ func main() {
 	run.Set("format_cases", fm.cases)
 	run.Set("library_path_cases", lb.cases)
 	run.Set("library_path_distinct_results", lb.distinct)
-	exh := hexh && sem.capHit == ""
+	exh := hexh && sem.capHit == "" && fres.capHit == "" && len(infraErrs) == 0
+	if len(infraErrs) > 0 {
+		run.Set("infrastructure_errors", infraErrs)
+	}
 	run.Set("exhaustive", exh)
 	caps := []string{}
 	if hcap != "" {
@@ -114,9 +156,12 @@ func main() {
 	if sem.capHit != "" {
 		caps = append(caps, "semantics-cli:"+sem.capHit)
 	}
+	if fres.capHit != "" {
+		caps = append(caps, "rule-files:"+fres.capHit)
+	}
 	run.Set("cap_hit", strings.Join(caps, ","))
 	run.Set("bounds", map[string]any{"history_depth": depth, "history_rules": len(histRules), "rule_alphabet": len(alphabet),
-		"max_rules_per_list": maxLen, "ticks": simTicks, "machines": []string{"pass", "count", "two", "pipe2(library path)"},
+		"max_rules_per_list": maxLen, "max_rules_per_list_over_sub_alphabet": subLen, "sub_alphabet": len(subAlphabet), "rule_file_history_depth": fdepth, "ticks": simTicks, "machines": []string{"pass", "count", "two", "pipe2(library path)"},
 		"modes": "interaction limit; pass also with -sim-stop-on-valid-of 0"})
 	run.Assume("object names are the implementation's mnemonics (i<k>, o<k>, p<k>r<j>, ...); the names used in docs/simbox-rules.md (r0, io_input, memory_0) are not accepted by the simulator and are only used in the print/parse part")
 	run.Assume("a get/show rule of tick t samples the state after the step of tick t; a set rule of tick t is applied before that step")
@@ -161,12 +206,12 @@ func runFormats(run *vlib.Run, scratch, bin string) fmtResult {
 			got, _, err := r.run(mj, c)
 			res.cases++
 			if err != nil {
-				run.Report("C15|harness|cli-run", fmt.Sprintf("%s: %v", c, err), simReplay{"cli", c})
+				infra(fmt.Sprintf("cli run of %s: %v", c, err))
 				continue
 			}
 			exp, err := expectedOutcomes(mi, ts, c, hyp{})
 			if err != nil {
-				run.Report("C15|harness|reference-failed", fmt.Sprintf("%s: %v", c, err), simReplay{"cli", c})
+				infra(fmt.Sprintf("reference for %s: %v", c, err))
 				continue
 			}
 			if matches(exp, got) {
@@ -194,7 +239,7 @@ func runLibrary(run *vlib.Run) libRes {
 		if !ok {
 			var err error
 			if mi, err = newMachineInfo(c.Machine); err != nil {
-				run.Report("C15|harness|machine-build", err.Error(), nil)
+				infra("machine build: " + err.Error())
 				return res
 			}
 			infos[c.Machine] = mi
@@ -204,7 +249,7 @@ func runLibrary(run *vlib.Run) libRes {
 		}
 	}
 	if err := ts.fetch(qs); err != nil {
-		run.Report("C15|harness|trace-worker", err.Error(), nil)
+		infra("trace worker: " + err.Error())
 		return res
 	}
 	// the library loop itself, in worker processes (it leaks goroutines)
@@ -217,7 +262,7 @@ func runLibrary(run *vlib.Run) libRes {
 		}
 		out, err := callWorker(workerJob{Lib: cases[lo:hi]})
 		if err != nil || len(out.Lib) != hi-lo {
-			run.Report("C15|harness|lib-worker", fmt.Sprint(err), nil)
+			infra("library worker: " + fmt.Sprint(err))
 			return res
 		}
 		for i, r := range out.Lib {
@@ -246,6 +291,11 @@ func doReplay(run *vlib.Run) {
 	fmt.Println("replaying", sig)
 	n := 1
 	switch {
+	case raw["tool"] != nil:
+		var rp fileReplay
+		vlib.LoadReplay(run.Replay, &rp)
+		replayFile(run, rp)
+		n = len(rp.Ops)
 	case raw["ops"] != nil:
 		var rp histReplay
 		vlib.LoadReplay(run.Replay, &rp)
@@ -293,7 +343,7 @@ func replayPrintParse(run *vlib.Run, rp ppReplay) {
 		sb := newSimbox()
 		err, pan := safeAdd(sb, rp.Text)
 		want, valid := docParse(rp.Text)
-		fmt.Printf("Add(%q): err=%v panic=%v rules=%+v; documented: valid=%v %+v\n", rp.Text, err, pan, sb.Rules, valid, want)
+		fmt.Printf("Add(%q): err=%v panic=%v rules=%s; documented: valid=%v %s\n", rp.Text, err, pan, frs(sb.Rules), valid, fr(want))
 		if pan != nil || valid != (err == nil) || (valid && (len(sb.Rules) != 1 || sb.Rules[0] != want)) {
 			run.Report("C15|parse|replay-mismatch", "see output", rp)
 		}
@@ -301,7 +351,7 @@ func replayPrintParse(run *vlib.Run, rp ppReplay) {
 		r := *rp.Rule
 		s, _ := safeString(r)
 		c, d := roundTrip(r, true)
-		fmt.Printf("%+v prints as %q; round trip: %s %s; documented form exists: %v\n", r, s, c, d, docValidStruct(r))
+		fmt.Printf("%s prints as %q; round trip: %s %s; documented form exists: %v\n", fr(r), s, c, d, docValidStruct(r))
 		if docValidStruct(r) && c != "" {
 			run.Report("C15|print|"+c+"|"+ruleClass(r), d, rp)
 		}
@@ -348,7 +398,7 @@ func replaySim(run *vlib.Run, rp simReplay) {
 		if rd != md {
 			run.Report("C15|compile|simdrive|relation-differs", "see output", rp)
 		}
-		if rr != mr {
+		if _, mr2 := modelRelationsR(am, true); rr != mr && rr != mr2 {
 			run.Report("C15|compile|simreport|relation-differs", "see output", rp)
 		}
 		for p := 0; p < 4; p++ {
